@@ -147,7 +147,9 @@ int real_waitpid(int pid, int* status, int options) {
     return r;
 }
 int g_how, g_arg, g_where;       // how: 0 signal, 1 _exit, 2 failing check, 3 self stop, 4 C-style (longjmp) failing check, 5 failure reported by a plugin through the result
+pid_t g_runner_pid; bool g_ran_in_runner;
 void die_here(int where) {
+    if (getpid() == g_runner_pid) { g_ran_in_runner = true; return; }      // separate-process mode is on: X must never execute in the runner itself
     if (where != g_where) return;
     switch (g_how) {
     case 0: raise(g_arg); break;
@@ -164,29 +166,37 @@ struct DyingPlugin : TestPlugin {
     void preTestAction(UtestShell& t, TestResult& r) override { if (t.getName() == "X") { die_here(3); if (g_how == 5 && g_where == 3) r.addFailure(TestFailure(&t, "plugin.cpp", 3, "reported by a plugin")); } }
     void postTestAction(UtestShell& t, TestResult& r) override { if (t.getName() == "X") { die_here(4); if (g_how == 5 && g_where == 4) r.addFailure(TestFailure(&t, "plugin.cpp", 4, "reported by a plugin")); } }
 };
+// what IGNORE_TEST(group, X) expands to: an IgnoredUtestShell creating the test object; with run-ignored on it runs like a TEST
+struct XTest : Utest { void setup() override { x_setup(); } void testBody() override { x_body(); } void teardown() override { x_teardown(); } };
+struct IgnoredX : IgnoredUtestShell { Utest* createTest() override { return new XTest; } };
 const char* WHERE[] = {"setup", "body", "teardown", "plugin-pre", "plugin-post"};
 const char* HOW[] = {"signal", "_exit", "failing-check", "self-stop", "failing-C-check", "plugin-reported-failure"};
 
 bool default_terminates(int s) { return !(s == SIGCHLD || s == SIGCONT || s == SIGURG || s == SIGWINCH || s == SIGSTOP || s == SIGTSTP || s == SIGTTIN || s == SIGTTOU); }
 
-void run_real(int how, int arg, int where) {
+void run_real(int how, int arg, int where, int kind) {
     vf::ctx("real-child");
     { static pid_t owner = 0; if (owner != getpid()) { owner = getpid(); g_marks = (SharedMarks*)mmap(nullptr, 4096, PROT_READ | PROT_WRITE, MAP_SHARED | MAP_ANONYMOUS, -1, 0); } }   // shared with our children only, not with sibling workers
     g_how = how; g_arg = arg; g_where = where; g_forks = 0; g_real_n = 0; g_kills = 0; g_record_kill = true; g_forward_kill = true;
     g_marks->ran[0] = g_marks->ran[1] = g_marks->ran[2] = 0;
-    std::string desc = vf::fmt("%s(%d) in %s", HOW[how], arg, WHERE[where]);
+    std::string desc = vf::fmt("%s(%d) in %s%s", HOW[how], arg, WHERE[where], kind ? " of an IGNORE_TEST run with run-ignored on" : "");
+    g_runner_pid = getpid(); g_ran_in_runner = false;
     Recorder out; TestResult result(out);
     {
         TestRegistry reg; DyingPlugin plugin;
         ExecFunctionTestShell t0, t1(x_setup, x_teardown), t2;
+        IgnoredX t1i;
         ExecFunctionWithoutParameters f0(mark0), f1(x_body), f2(mark2);
         t0.testFunction_ = &f0; t1.testFunction_ = &f1; t2.testFunction_ = &f2;
-        t1.setTestName("X");
-        reg.addTest(&t2); reg.addTest(&t1); reg.addTest(&t0);
+        t1.setTestName("X"); t1i.setTestName("X");
+        reg.addTest(&t2); reg.addTest(kind ? (UtestShell*)&t1i : &t1); reg.addTest(&t0);
         reg.installPlugin(&plugin);
         reg.setRunTestsInSeperateProcess();
+        if (kind) reg.setRunIgnored();
         reg.runAllTests(result);
     }
+    if (g_ran_in_runner) { vf::fail("real/ran-in-runner-process", desc + ": separate-process mode is on but the test executed inside the runner process (its death would take the whole run down)"); g_record_kill = false; return; }
+    if (g_forks != 3) vf::fail("real/fork-count", desc + vf::fmt(": %d children were forked for 3 tests", g_forks));
     g_record_kill = false;
     // reference from the recorded status words
     int want_fail = 0, want_cont = 0; bool ended = false; std::vector<std::string> want_text;
@@ -270,16 +280,16 @@ int main(int argc, char** argv) {
     // ---- layer B: real children (no sanitizer: exact signal semantics)
     if (plain) {
         PlatformSpecificFork = real_fork; PlatformSpecificWaitPid = real_waitpid;
-        long N = 5 * (31 + 256 + 1 + 1 + 1 + 1);
-        vf::info("realfork.bound", "crash point in {setup, body, teardown, plugin pre, plugin post} x {raise(1..31), _exit(0..255), failing check, raise(SIGSTOP), C-style failing check (test phases), failure reported by a plugin through the result (plugin actions)}: real fork, real waitpid, status words recorded");
+        long N = 2 * 5 * (31 + 256 + 1 + 1 + 1 + 1);
+        vf::info("realfork.bound", "X a TEST or an IGNORE_TEST run with run-ignored on; crash point in {setup, body, teardown, plugin pre, plugin post} x {raise(1..31), _exit(0..255), failing check, raise(SIGSTOP), C-style failing check (test phases), failure reported by a plugin through the result (plugin actions)}: real fork, real waitpid, status words recorded");
         vf::section_index("realfork", N, [&](long idx) {
-            vf::Radix r(idx); int where = (int)r.take(5); long k = r.idx;
-            if (k < 31) run_real(0, (int)k + 1, where);
-            else if (k < 31 + 256) run_real(1, (int)(k - 31), where);
-            else if (k == 31 + 256) run_real(2, 0, where);
-            else if (k == 31 + 256 + 1) run_real(3, 0, where);
-            else if (k == 31 + 256 + 2) { if (where <= 2) run_real(4, 0, where); }
-            else { if (where >= 3) run_real(5, 0, where); }
+            vf::Radix r(idx); int kind = (int)r.take(2); int where = (int)r.take(5); long k = r.idx;
+            if (k < 31) run_real(0, (int)k + 1, where, kind);
+            else if (k < 31 + 256) run_real(1, (int)(k - 31), where, kind);
+            else if (k == 31 + 256) run_real(2, 0, where, kind);
+            else if (k == 31 + 256 + 1) run_real(3, 0, where, kind);
+            else if (k == 31 + 256 + 2) { if (where <= 2) run_real(4, 0, where, kind); }
+            else { if (where >= 3) run_real(5, 0, where, kind); }
         });
         vf::require_outcomes("realfork", 5);
     } else {
